@@ -23,7 +23,8 @@ func drawEnumFieldType(t *rapid.T) string {
 }
 
 var nameWords = []string{"alt", "lat", "lon", "vx", "time", "boot", "ms", "target", "system", "param", "seq", "mode", "type", "id",
-	"count", "flags", "yaw", "q", "x", "y", "z", "data", "name", "status", "temp", "gps", "fix", "raw", "int", "cov"}
+	"count", "flags", "yaw", "q", "x", "y", "z", "data", "name", "status", "temp", "gps", "fix", "raw", "int", "cov",
+	"message", "messages", "enum", "field", "dialect"}
 
 // odd field names: legal XML, not invertible snake case (need a mavname tag)
 var oddFieldNames = []string{"param_1", "aB_c", "x__y", "UPPER", "tail_", "x1_y2", "Mixed_Case", "q_1_w", "Vx", "gps_2_raw"}
@@ -46,7 +47,10 @@ func drawWordName(t *rapid.T, upper bool, label string) string {
 }
 
 func drawDesc(t *rapid.T, label string) string {
-	return rapid.SampledFrom([]string{"", "plain text", "two\n   lines  ", "with \"quotes\" and `ticks` and \\ and */ and //", "unicode é €", "a < b & c", "   "}).Draw(t, label)
+	// \x01 stands for a literal ampersand in the printed XML: character and entity references, which the
+	// parser turns into line breaks, comment delimiters, quotes and markup characters
+	return rapid.SampledFrom([]string{"", "plain text", "two\n   lines  ", "with \"quotes\" and `ticks` and \\ and */ and //", "unicode é €", "a < b & c", "   ",
+		"first line\x01#10;second line\x01#13;\x01#10;third", "closing \x01#42;\x01#47; opening \x01#x2F;\x01#x2A; \x01lt;tag\x01gt; \x01quot;q\x01quot; \x01apos;a\x01apos; \x01amp;amp;", "tab\x01#9;and\x01#10;"}).Draw(t, label)
 }
 
 func enumValueText(t *rapid.T, v uint64, label string) string {
@@ -315,6 +319,9 @@ func drawDialectModel(t *rapid.T, idx int) XDialect {
 					f.Ext = true
 				}
 				f.Desc = drawDesc(t, "fdesc")
+				// presentation attributes of the schema: they say how a ground station shows the field and
+				// never what the field or the enum it refers to is
+				f.Attrs = rapid.SampledFrom([]string{"", "", "", ` display="bitmask"`, ` units="m/s"`, ` print_format="0x%04x"`, ` units="rad" invalid="NaN"`, ` instance="true"`, ` display="bitmask" print_format="0x%02x"`}).Draw(t, "fattrs")
 				m.Fields = append(m.Fields, f)
 			}
 			d.Files[fi].Msgs = append(d.Files[fi].Msgs, m)
